@@ -447,7 +447,75 @@ func writeReplayFile(path string, o *Obligation, prop string) {
 	if len(o.All) == 0 {
 		fmt.Fprintf(&sb, "--- %s\n%s\n", o.Result.Solver, o.Result.Output)
 	}
+	if o.Expect == "unsat" {
+		if cand := candidateModel(o); cand != "" {
+			fmt.Fprintf(&sb, "\n--- candidate counterexample (quantified hypotheses dropped; may be spurious)\n%s\n", cand)
+		}
+	}
 	os.WriteFile(path, []byte(sb.String()), 0o644)
+}
+
+// candidateModel runs counterexample mode and returns the interesting part of the model as text.
+func candidateModel(o *Obligation) string {
+	q, _ := o.cexQuery()
+	dir, err := os.MkdirTemp("", "gverif-cex-")
+	if err != nil {
+		return ""
+	}
+	defer os.RemoveAll(dir)
+	file := filepath.Join(dir, "cex.smt2")
+	os.WriteFile(file, []byte(q), 0o644)
+	r := runSolver(solvers[0], file, 5)
+	if r.Status != "sat" {
+		return "(no candidate: solver answered " + r.Status + " on the quantifier-free weakening)"
+	}
+	o.Model = parseModel(r.Output)
+	var keys []string
+	for k := range o.Model {
+		keys = append(keys, k)
+	}
+	sort.Strings(keys)
+	var sb strings.Builder
+	for _, k := range keys {
+		if strings.HasPrefix(k, "p_") || strings.HasPrefix(k, "fv_") || strings.HasPrefix(k, "t") || strings.HasPrefix(k, "r_") || strings.HasPrefix(k, "lp_") {
+			fmt.Fprintf(&sb, "  %s = %s\n", k, o.Model[k])
+		}
+	}
+	return sb.String()
+}
+
+// parseModel parses the answer of (get-value (...)): ((name value) (name value) ...)
+func parseModel(out string) map[string]string {
+	m := map[string]string{}
+	i := strings.Index(out, "((")
+	if i < 0 {
+		return m
+	}
+	s := out[i+1:]
+	depth := 0
+	start := -1
+	for j := 0; j < len(s); j++ {
+		switch s[j] {
+		case '(':
+			if depth == 0 {
+				start = j
+			}
+			depth++
+		case ')':
+			depth--
+			if depth == 0 && start >= 0 {
+				item := s[start+1 : j]
+				if sp := strings.IndexAny(item, " \n"); sp > 0 {
+					m[item[:sp]] = strings.Join(strings.Fields(item[sp+1:]), " ")
+				}
+				start = -1
+			}
+			if depth < 0 {
+				return m
+			}
+		}
+	}
+	return m
 }
 
 // tryReplay attempts to turn the solver model into a failing input of the real code (replay.go).
